@@ -9,7 +9,7 @@ common._worker_init(bool(getattr(mod, "HEAVY", False)), os.environ.get("VERIF_RE
 ts = [t for t in mod.tasks(tier, 0) if sub in t["key"]][:mx]
 for t in ts:
     t0 = time.time()
-    r = common.run_task_symbolic((modname, t, {"timeout_ms": 20000, "canary": True, "xcheck": False, "profile": False}))
+    r = common.run_task_symbolic((modname, t, {"timeout_ms": 20000, "canary": True, "xcheck": False, "profile": False, "max_task_s": float(os.environ.get("DBG_TASK_S", "120"))}))
     print("==", t["key"], "wall %.2f" % (time.time() - t0))
     if r.get("harness_error"):
         print(r["harness_error"]); print(r["traceback"]); continue
